@@ -40,6 +40,10 @@ class CallMixin:
                 return
         # ---- super().m(...)
         if isinstance(f, ast.Attribute) and isinstance(f.value, ast.Call) and ast.unparse(f.value.func) == "super":
+            from .eval_stmt import list_feed_call
+            if list_feed_call(e):
+                yield from self.ev_list_feed(st, e, cx)
+                return
             for st1, (args, kwargs) in self.ev_args(st, e, cx):
                 if isinstance(args, Raise):
                     yield st1, args
